@@ -785,4 +785,7 @@ def run(ctx):
     rule_sinks(ctx)
     rule_selection(ctx)
     rule_uses(ctx)
+    import c12
+
+    ctx.include("C09.7", "prerequisite shared with C12.2/C13.3: the lifting gives every block the edges of the control flow it came from - a join block is opened exactly when predecessors are pending - and keeps every statement (an assignment whose block lost an edge looks unused)", c12.rule_lifting)
     ctx.include("C09.6", "prerequisite shared with C14: phi insertion is iterated, renaming order and scope pairing, phi identity (a missing phi disconnects an assignment from its later reads)", c14.rule_phi_insertion, c14.rule_phis_and_locals, c14.rule_plumbing)
